@@ -70,6 +70,9 @@ pub struct PSim {
     pub spos: usize,
     pub script_exit: Option<Status>,
     pub script_drift: bool,
+    /// ordinals (1-based, among the handle's waitpid calls of the scenario) that fail with EINTR
+    pub eintr_at: Vec<u64>,
+    pub nwaitpid: u64,
 }
 
 pub static mut PSIM: Option<Box<PSim>> = None;
@@ -110,6 +113,8 @@ impl PSim {
             spos: 0,
             script_exit: None,
             script_drift: false,
+            eintr_at: vec![],
+            nwaitpid: 0,
         }
     }
 
@@ -272,6 +277,13 @@ impl PSim {
         self.script_point(b'S');
         self.env_due();
         let nohang = flags & libc::WNOHANG != 0;
+        self.nwaitpid += 1;
+        if self.eintr_at.contains(&self.nwaitpid) {
+            // a signal handler (installed without SA_RESTART) ran while the call was waiting
+            self.log(json!({"e":"waitpid_eintr","pid":VPID,"nohang":nohang}));
+            crate::raw::set_errno(libc::EINTR);
+            return -1;
+        }
         if self.st == St::Running && !nohang {
             match self.exit_at.clone() {
                 Some((t, _)) => {
